@@ -706,6 +706,9 @@ func (m *Machine) step(st *State, fr *Frame, in ssa.Instruction) {
 		base, idx := ev(x.X), m.resolve(st, ev(x.Index))
 		if base.K == KSym && idx.K == KSym && strings.HasPrefix(idx.S, "rangeidx:") {
 			set(x, Sym(base.S+"[range]"))
+		} else if base.K == KSym && idx.K == KInt && strings.HasSuffix(base.S, "[:]") {
+			// element i of the whole-array slice of a local array is element i of the array
+			set(x, Sym(strings.TrimSuffix(base.S, "[:]")+"["+idx.String()+"]"))
 		} else if base.K == KSym && idx.K != KUnk {
 			set(x, Sym(base.S+"["+idx.String()+"]"))
 		} else if base.K == KSym {
@@ -773,7 +776,7 @@ func (m *Machine) step(st *State, fr *Frame, in ssa.Instruction) {
 			set(x, Unk)
 		}
 	case *ssa.BinOp:
-		if x.Op == token.ADD && strings.HasPrefix(x.Block().Comment, "rangeindex.loop") {
+		if x.Op == token.ADD && strings.HasPrefix(x.Block().Comment, "rangeindex.loop") && !m.rangeLengthKnown(st, fr, x) {
 			// the hidden counter of a lowered `for range slice`: a fresh symbolic index per iteration
 			name := "rangeidx:" + fr.ID + ":" + x.Name()
 			m.forget(st, name)
@@ -1186,6 +1189,28 @@ func (m *Machine) binop(st *State, x *ssa.BinOp, a, b AV) AV {
 	if a.K == KUnk || b.K == KUnk {
 		return Unk
 	}
+	// (x + k) - j and (x - k) + j fold their constants
+	if (op == token.ADD || op == token.SUB) && b.K == KInt && a.K == KSym && !a.Neg {
+		if mm := reOffset.FindStringSubmatch(a.S); mm != nil && balanced(mm[1]) {
+			k, _ := strconv.ParseInt(mm[3], 10, 64)
+			if mm[2] == "-" {
+				k = -k
+			}
+			if op == token.ADD {
+				k += b.I
+			} else {
+				k -= b.I
+			}
+			switch {
+			case k == 0:
+				return Sym(mm[1])
+			case k > 0:
+				return Sym("(" + mm[1] + " + " + strconv.FormatInt(k, 10) + ")")
+			default:
+				return Sym("(" + mm[1] + " - " + strconv.FormatInt(-k, 10) + ")")
+			}
+		}
+	}
 	// x + 0, 0 + x, x - 0 are x
 	if (op == token.ADD || op == token.SUB) && b.K == KInt && b.I == 0 && a.K == KSym {
 		return a
@@ -1442,7 +1467,10 @@ func (m *Machine) doCall(st *State, fr *Frame, call ssa.CallInstruction) bool {
 		res := Unk
 		switch b.Name() {
 		case "len":
-			if args[0].K == KSym {
+			if elems, ok := m.SliceElems(st, args[0]); ok && args[0].K == KSym && len(elems) > 0 {
+				// a list written out on this path (the arguments of a variadic call): its length is known
+				res = IntV(int64(len(elems)))
+			} else if args[0].K == KSym {
 				res = m.load(st, "len("+args[0].S+")", types.Typ[types.Int])
 			} else if args[0].K == KStr {
 				res = capInt(int64(len(args[0].S)))
@@ -1536,6 +1564,23 @@ func (m *Machine) doCall(st *State, fr *Frame, call ssa.CallInstruction) bool {
 			}
 		}
 	}
+	// a helper that calls itself as the last thing it does (the call's results are returned as they are) is a loop: the
+	// current activation is re-entered at its first block with the new arguments — same events, and the states converge
+	// as they do for a loop (only for helpers explored as part of a caller: the root function's recursion is a rule's
+	// business)
+	if callee != nil && callee == fr.Fn && len(st.Frames) > 1 && m.P.InModule(callee) && isSelfTailCall(call) && len(callee.FreeVars) == 0 {
+		m.Model.Instr(m, st, call, args)
+		for i, prm := range callee.Params {
+			if i < len(args) {
+				fr.Vals[prm] = args[i]
+			}
+		}
+		if !m.enterBlock(st, callee.Blocks[0]) {
+			m.Paths++
+			return false
+		}
+		return true
+	}
 	// default: inline module functions
 	if callee != nil && callee.Blocks != nil && m.P.InModule(callee) && len(st.Frames) < m.MaxDepth && m.Inline(callee) && !m.onStack(st, callee) {
 		nf := &Frame{Fn: callee, Vals: map[ssa.Value]AV{}, Call: call, ID: fr.ID + ">" + fnName(callee)}
@@ -1599,4 +1644,70 @@ func (m *Machine) onStack(st *State, fn *ssa.Function) bool {
 		}
 	}
 	return n > m.Unroll
+}
+
+// isSelfTailCall: the call's value is returned unchanged by the instructions that follow it in its block
+// (`return f(…)`, or `a, b := f(…); return a, b` as go/ssa lowers a multi-value return).
+func isSelfTailCall(call ssa.CallInstruction) bool {
+	cv, ok := call.(*ssa.Call)
+	if !ok {
+		return false
+	}
+	b := cv.Block()
+	idx := -1
+	for i, in := range b.Instrs {
+		if in == ssa.Instruction(cv) {
+			idx = i
+		}
+	}
+	if idx < 0 {
+		return false
+	}
+	extracts := map[ssa.Value]int{}
+	for _, in := range b.Instrs[idx+1:] {
+		switch x := in.(type) {
+		case *ssa.DebugRef:
+		case *ssa.Extract:
+			if x.Tuple != ssa.Value(cv) {
+				return false
+			}
+			extracts[x] = x.Index
+		case *ssa.Return:
+			if len(x.Results) == 1 && x.Results[0] == ssa.Value(cv) {
+				return true
+			}
+			for i, r := range x.Results {
+				if k, ok := extracts[r]; !ok || k != i {
+					return false
+				}
+			}
+			return len(x.Results) > 0
+		default:
+			return false
+		}
+	}
+	return false
+}
+
+// rangeLengthKnown: the lowered range loop whose hidden counter is ctr runs over a list whose length the path knows (the
+// written-out arguments of a variadic call): the counter then takes its concrete values 0, 1, … and the loop is walked
+// exactly, instead of being summarised with a symbolic index.
+func (m *Machine) rangeLengthKnown(st *State, fr *Frame, ctr *ssa.BinOp) bool {
+	b := ctr.Block()
+	if len(b.Instrs) == 0 {
+		return false
+	}
+	iff, ok := b.Instrs[len(b.Instrs)-1].(*ssa.If)
+	if !ok {
+		return false
+	}
+	cmp, ok := iff.Cond.(*ssa.BinOp)
+	if !ok || cmp.Op != token.LSS || cmp.X != ssa.Value(ctr) {
+		return false
+	}
+	if _, defined := fr.Vals[cmp.Y]; !defined {
+		return false
+	}
+	n := m.eval(st, fr, cmp.Y)
+	return n.K == KInt && n.I <= 4
 }
